@@ -377,7 +377,9 @@ func (fr *frame) slice(instr *ssa.Slice, x, lo, hi, max value) value {
 	case string:
 		return x[l:h]
 	case symstr:
-		return mkstr(x.b[l:h])
+		// substrings of a symbolic string stay views of the same backing bytes (strings are
+		// immutable), so that pointer-identity idioms (gjson's fillIndex) keep working
+		return symstr{b: x.b[l:h:h]}
 	case []value:
 		if x == nil {
 			return x
@@ -568,8 +570,16 @@ var binOpTab = map[token.Token][2]Op{ // [unsigned, signed]
 	token.LSS: {OpULt, OpSLt}, token.LEQ: {OpULe, OpSLe},
 }
 
+type opaqueFloat struct{}
+
 func (fr *frame) binop(op token.Token, t types.Type, x, y value) value {
 	m := fr.m
+	if _, ok := x.(opaqueFloat); ok {
+		unsupported("arithmetic on a float derived from a symbolic integer")
+	}
+	if _, ok := y.(opaqueFloat); ok {
+		unsupported("arithmetic on a float derived from a symbolic integer")
+	}
 	switch op {
 	case token.EQL:
 		return m.eqnil(t, x, y)
@@ -1109,6 +1119,18 @@ func (fr *frame) callBuiltin(fn *ssa.Builtin, args []value, callInstr ssa.CallIn
 		}
 	case "Add":
 		unsupported("unsafe.Add")
+	case "Sizeof", "Alignof", "Offsetof":
+		if callInstr != nil && len(callInstr.Common().Args) == 1 {
+			sz := types.StdSizes{WordSize: 8, MaxAlign: 8}
+			t := callInstr.Common().Args[0].Type()
+			if fn.Name() == "Sizeof" {
+				return uintptr(sz.Sizeof(t))
+			}
+			if fn.Name() == "Alignof" {
+				return uintptr(sz.Alignof(t))
+			}
+		}
+		unsupported("unsafe.%s", fn.Name())
 	}
 
 	panic(engineError{"unknown built-in: " + fn.Name()})
@@ -1205,7 +1227,7 @@ func (fr *frame) conv(t_dst, t_src types.Type, x value) value {
 		case *types.Pointer:
 			if up.p == nil {
 				if up.opaque {
-					unsupported("deref of opaque unsafe.Pointer")
+					unsupported("deref of opaque unsafe.Pointer @ %s", fr.stack())
 				}
 				return (*value)(nil)
 			}
@@ -1228,7 +1250,9 @@ func (fr *frame) conv(t_dst, t_src types.Type, x value) value {
 		case types.String:
 			unsupported("string(symbolic rune)")
 		case types.Float32, types.Float64:
-			unsupported("symbolic int -> float")
+			// floats are concrete-only: the result is an opaque value; using it in arithmetic or a
+			// comparison makes the path inconclusive, merely storing/copying it does not
+			return opaqueFloat{}
 		}
 		w := kindWidth(dk)
 		var t *Term
